@@ -45,6 +45,19 @@ def _work(args):
     return len(states)
 
 
+def cap_into_cup(d):
+    """does some wire produced by a cap end in a cup (without passing through a box)?"""
+    wires, fresh = [("in", k) for k in range(len(d["dom"]))], 0
+    for k, (b, o) in enumerate(zip(d["boxes"], d["offs"])):
+        ins = wires[o:o + len(b["dom"])]
+        if b["kind"] == 2 and any(w[0] == "cap" for w in ins) and len(set(w[1] for w in ins if w[0] == "cap")) == len([w for w in ins if w[0] == "cap"]):
+            if not (len(ins) == 2 and ins[0][0] == "cap" and ins[1][0] == "cap" and ins[0][1] == ins[1][1]):
+                return True
+        outs = [("cap" if b["kind"] == 3 else "box", k)] * len(b["cod"])
+        wires = wires[:o] + outs + wires[o + len(b["dom"]):]
+    return False
+
+
 def describe(d):
     def b(x):
         if x["kind"] == 2:
@@ -67,14 +80,19 @@ def run(tier, seed, t0):
         os.remove(model["dump"])
         n_all = len(states)
         rnd = core.rng(seed, "C07")
-        flag = [any(b["kind"] == 3 for b in s["boxes"]) and any(b["kind"] == 2 for b in s["boxes"])
+        # test-plan selection only (the verdicts are TLC's): diagrams in which a leg of a cap runs straight into a cup
+        # (candidate snakes) are all replayed up to the budget, other diagrams with a cap and a cup and the rest are sampled
+        snakes = [s for s in states if cap_into_cup(s)]
+        flag = [any(b["kind"] == 3 for b in s["boxes"]) and any(b["kind"] == 2 for b in s["boxes"]) and not cap_into_cup(s)
                 for s in states]
         interesting = [s for s, f in zip(states, flag) if f]
-        rest = [s for s, f in zip(states, flag) if not f]
-        if len(interesting) > c["replay"]:
-            interesting = rnd.sample(interesting, c["replay"])
+        rest = [s for s, f in zip(states, flag) if not f and not cap_into_cup(s)]
+        n_snakes = len(snakes)
+        if len(snakes) > 3 * c["replay"]:
+            snakes = rnd.sample(snakes, 3 * c["replay"])
+        interesting = rnd.sample(interesting, min(len(interesting), c["replay"] // 3))
         rest = rnd.sample(rest, min(len(rest), c["replay"] // 4))
-        todo = interesting + rest
+        todo = snakes + interesting + rest
         procs = 16
         chunks = [(todo[k::procs], os.path.join(work, "obs-%d.ndjson" % k)) for k in range(procs)]
         with mp.get_context("fork").Pool(procs) as pool:
@@ -117,7 +135,7 @@ def run(tier, seed, t0):
                "exhaustive": len(todo) == n_all,
                "model": dict(consts, module="MC_Snake", invariants=["InvNoError", "InvResult", "InvOnlySnakes"],
                              wall_s=model["wall_s"]),
-               "replay": {"states_in_model": n_all, "histories": len(rows), "with_cap_and_cup": len(interesting),
+               "replay": {"states_in_model": n_all, "histories": len(rows), "candidate_snakes_in_model": n_snakes, "with_cap_and_cup": len(interesting),
                           "yielded_steps": sum(len(t["steps"]) for t in rows), "yank_steps": n_yank,
                           "normalize_exceptions": dict(Counter(t["exc"] for t in rows if t["exc"])),
                           "normal_form_exceptions": dict(Counter(t["nfexc"] for t in rows if t["nfexc"]))},
